@@ -419,7 +419,7 @@ Proof.
   pose proof (sumn_ge mpend _ _ _ Hi) as G1.
   pose proof (sumn_ge md2 _ _ _ Hi) as G2.
   pose proof (sumn_ge md3 _ _ _ Hi) as G3.
-  unfold step_main in H.
+  unfold step_main, after_wait in H.
   destruct pc; simpl in H; unfold a_lock, a_set_body, a_close_ready, a_close_quiet, a_unlock in H;
     simpl in H; step_cases H;
     repeat (match goal with |- context[if ?c then _ else _] => destruct c eqn:? end);
@@ -437,4 +437,253 @@ Proof.
            end; intros;
     repeat match goal with |- context[if ?c then _ else _] => destruct c; simpl end;
     rewrite ?Ez, ?Eq; simpl; try lia.
+Qed.
+
+Lemma InvA_step_proc W s k pr s' :
+  Inv W s -> nth_error (st_proc s) k = Some pr -> step_proc s k pr = Some s' -> InvA s'.
+Proof.
+  intros [L A B C D] Hk H.
+  assert (Hstd : forall k p, nth_error (st_proc s') k = Some p -> p_src p = None -> p_pc p <> PEnd ->
+                 nth_error (st_main s') (p_owner p) = Some MWaitStd).
+  { destruct (step_proc_frame _ _ _ _ H) as (_ & F2 & _ & _ & _ & _ & _ & _ & _ & _ & pc' & F7).
+    rewrite F2, F7. intros k' p. rewrite nth_error_upd.
+    destruct ((k' =? k) && (k <? length (st_proc s))).
+    - intro E; inversion E; subst p; simpl. intros Hs _.
+      apply (ia_std _ A k pr Hk Hs). intro Hp.
+      destruct pr as [o src pc]. simpl in Hp. subst pc. simpl in H. discriminate.
+    - apply (ia_std _ A). }
+  pose proof (busy_pos s k _ A Hk) as BP.
+  destruct A as [Ai As Az Ad At]. unfold nD2, nD3 in *.
+  destruct pr as [o src pc].
+  pose proof (fun x => sumn_upd phold k x _ _ Hk) as U1.
+  pose proof (fun x => sumn_upd pd2 k x _ _ Hk) as U2.
+  pose proof (fun x => sumn_upd pd3 k x _ _ Hk) as U3.
+  pose proof (sumn_ge phold _ _ _ Hk) as G1.
+  pose proof (sumn_ge pd2 _ _ _ Hk) as G2.
+  pose proof (sumn_ge pd3 _ _ _ Hk) as G3.
+  unfold step_proc in H. simpl in H.
+  destruct src as [a|];
+  (destruct pc as [|m r|m r|[d ks] r|r|r|r| | | |]; simpl in H;
+    unfold a_close_quiet in H; simpl in H; step_cases H;
+    try match goal with
+        | T : take_first _ _ _ = Some _ |- _ =>
+          let TL := fresh "TL" in
+          pose proof (proj1 (proj2 (proj2 (proj2 (proj2 (take_first_spec _ _ _ _ _ T)))))) as TL
+        end;
+    repeat (match goal with |- context[if ?c then _ else _] => destruct c eqn:? end);
+    repeat (match goal with |- context[after _ ?r] => destruct r eqn:?; unfold after end);
+    (constructor; [ | exact Hstd | | | ]); clear Hstd; unfold nD2, nD3;
+    destruct (sp_zero (st_pool s)) eqn:Ez; destruct (sp_quiet (st_pool s)) eqn:Eq;
+    simpl in *; rewrite ?Ez, ?Eq, ?app_length; simpl;
+    try specialize (BP I);
+    repeat match goal with
+           | |- context[sumn ?f (upd k ?x (st_proc s))] =>
+             match f with
+             | phold => let U := fresh in pose proof (U1 x) as U; simpl in U; revert U
+             | pd2 => let U := fresh in pose proof (U2 x) as U; simpl in U; revert U
+             | pd3 => let U := fresh in pose proof (U3 x) as U; simpl in U; revert U
+             end;
+             generalize (sumn f (upd k x (st_proc s)))
+           end; intros;
+    repeat match goal with
+           | |- context[after ?c ?r] => destruct r; simpl in *
+           end;
+    try lia).
+Qed.
+
+Lemma InvA_step W s t s' : Inv W s -> step s t = Some s' -> InvA s'.
+Proof.
+  intros I H. destruct t as [i|k|]; simpl in H.
+  - destruct (nth_error (st_main s) i) as [pc|] eqn:Hi; [|discriminate].
+    eapply InvA_step_main; eauto.
+  - destruct (nth_error (st_proc s) k) as [pr|] eqn:Hk; [|discriminate].
+    eapply InvA_step_proc; eauto.
+  - destruct (st_cancel s); [discriminate|]. inversion H; subst.
+    destruct I as [_ [A1 A2 A3 A4 A5] _ _ _]. constructor; simpl; auto.
+Qed.
+
+(* ---- InvB: mutex, pool bits, ready channel ---------------------------------------------------- *)
+
+Ltac main_cases pc H :=
+  unfold step_main, after_wait in H;
+  destruct pc; simpl in H; unfold a_lock, a_set_body, a_close_ready, a_close_quiet, a_unlock in H;
+  simpl in H; step_cases H; unfold w_wake; simpl;
+  repeat (match goal with |- context[if ?c then _ else _] => destruct c eqn:? end).
+
+Lemma InvB_step_main W s i pc s' :
+  Inv W s -> nth_error (st_main s) i = Some pc -> step_main s i pc = Some s' -> InvB s'.
+Proof.
+  intros [L A B C D] Hi H. destruct B as [Bc Bm Bb Br].
+  assert (Hilt : i <? length (sp_pool (st_pool s)) = true).
+  { apply Nat.ltb_lt. rewrite (il_bits _ L), <- (il_main _ L). eapply nth_error_lt; eauto. }
+  assert (Hilm : i < length (st_main s)) by (eapply nth_error_lt; eauto).
+  pose proof (fun x => sumn_upd mhold i x pc _ Hi) as U1.
+  pose proof (fun x => sumn_upd mclose i x pc _ Hi) as U2.
+  pose proof (sumn_ge mhold _ _ _ Hi) as G1.
+  pose proof (sumn_ge mclose _ _ _ Hi) as G2.
+  pose proof (Bb i pc Hi) as Bi.
+  assert (AF : bitp pc = true -> all_false (sp_pool (st_pool s)) = false).
+  { intro E. rewrite E in Bi. eapply all_false_nth; eauto. }
+  constructor.
+  - (* mutex count *)
+    main_cases pc H; simpl in *; try discriminate;
+      match goal with |- context[sumn mhold (upd i ?x _)] => pose proof (U1 x) as U; simpl in U end;
+      destruct (sp_mu (st_pool s)); simpl in *; try discriminate; lia.
+  - (* mutex holder *)
+    assert (Hgen : forall pc' mu' mains', mu' = sp_mu (st_pool s) -> mains' = upd i pc' (st_main s) ->
+                   (mhold pc = 1 -> mhold pc' = 1) ->
+                   forall j, mu' = Some j -> exists pcj, nth_error mains' j = Some pcj /\ mhold pcj = 1).
+    { intros pc' mu' mains' Emu Em Hh j Hj. rewrite Em. rewrite Emu in Hj. destruct (Bm j Hj) as (pcj & Hpj & Hhj).
+      destruct (Nat.eq_dec j i) as [->|Hne].
+      - rewrite nth_error_upd_eq by assumption. exists pc'. split; auto. apply Hh. congruence.
+      - rewrite nth_error_upd_neq by congruence. eauto. }
+    main_cases pc H; simpl in *; try discriminate;
+      try (eapply Hgen; simpl; try reflexivity; simpl; auto; fail).
+    + (* Lock *) intros j Hj. inversion Hj; subst j. rewrite nth_error_upd_eq by assumption. eauto.
+  - (* pool bits *)
+    assert (Hgen : forall pc' bits' mains', bits' = sp_pool (st_pool s) -> mains' = upd i pc' (st_main s) ->
+                   bitp pc' = bitp pc ->
+                   forall j pcj, nth_error mains' j = Some pcj -> nth j bits' false = bitp pcj).
+    { intros pc' bits' mains' Ep Em Hb j pcj. rewrite Em, Ep, nth_error_upd.
+      destruct (Nat.eqb_spec j i) as [->|Hne]; simpl.
+      - replace (i <? length (st_main s)) with true by (symmetry; apply Nat.ltb_lt; assumption).
+        intro E; inversion E; subst. congruence.
+      - apply Bb. }
+    main_cases pc H; simpl in *; try discriminate;
+      try (eapply Hgen; simpl; try reflexivity; fail).
+    + (* set body: the bit is cleared *)
+      intros j pcj. rewrite nth_error_upd, nth_upd, Hilt.
+      destruct (Nat.eqb_spec j i) as [->|Hne]; simpl.
+      * replace (i <? length (st_main s)) with true by (symmetry; apply Nat.ltb_lt; assumption).
+        intro E; inversion E; subst. reflexivity.
+      * apply Bb.
+    + intros j pcj. rewrite nth_error_upd, nth_upd, Hilt.
+      destruct (Nat.eqb_spec j i) as [->|Hne]; simpl.
+      * replace (i <? length (st_main s)) with true by (symmetry; apply Nat.ltb_lt; assumption).
+        intro E; inversion E; subst. reflexivity.
+      * apply Bb.
+  - (* ready *)
+    main_cases pc H; simpl in *; try discriminate;
+      match goal with |- context[sumn mclose (upd i ?x _)] => pose proof (U2 x) as U; simpl in U end;
+      try (specialize (AF eq_refl); rewrite AF in * );
+      destruct (sp_ready (st_pool s));
+      destruct (all_false (sp_pool (st_pool s))) eqn:?; simpl in *; try lia.
+Qed.
+
+Lemma InvB_step W s t s' : Inv W s -> step s t = Some s' -> InvB s'.
+Proof.
+  intros I H. destruct t as [i|k|]; simpl in H.
+  - destruct (nth_error (st_main s) i) as [pc|] eqn:Hi; [|discriminate].
+    eapply InvB_step_main; eauto.
+  - destruct (nth_error (st_proc s) k) as [pr|] eqn:Hk; [|discriminate].
+    destruct (step_proc_frame _ _ _ _ H) as (_ & F2 & _ & _ & _ & _ & _ & F8 & F9 & F10 & _).
+    destruct I as [_ _ [B1 B2 B3 B4] _ _]. constructor; rewrite ?F2, ?F8, ?F9, ?F10; auto.
+  - destruct (st_cancel s); [discriminate|]. inversion H; subst.
+    destruct I as [_ _ [B1 B2 B3 B4] _ _]. constructor; simpl; auto.
+Qed.
+
+(* ---- InvC: the ordered teardown ------------------------------------------------------------------ *)
+
+Lemma nxt_lt n i : i < n -> nxt n i < n.
+Proof. destruct i; simpl; lia. Qed.
+
+Lemma nxt_inj n i j : i < n -> j < n -> nxt n i = nxt n j -> i = j.
+Proof. destruct i, j; simpl; lia. Qed.
+
+Lemma tphase_le2 pc : tphase pc <= 2.
+Proof. destruct pc; simpl; lia. Qed.
+
+Lemma evs_phase0 n i pc : tphase pc = 0 -> evs n i pc = [].
+Proof. destruct pc; simpl; auto; discriminate. Qed.
+
+Lemma log_from_upd_ge n i x mains m : m <= i -> log_from n (upd i x mains) m = log_from n mains m.
+Proof.
+  induction m as [|m IH]; simpl; intro H; auto.
+  rewrite IH by lia. rewrite nth_upd.
+  replace (m =? i) with false by (symmetry; apply Nat.eqb_neq; lia). reflexivity.
+Qed.
+
+Lemma log_from_nil n mains m :
+  (forall j, j < m -> tphase (nth j mains MWaitStd) = 0) -> log_from n mains m = [].
+Proof.
+  induction m as [|m IH]; simpl; intro H; auto.
+  rewrite IH by (intros; apply H; lia). rewrite evs_phase0; auto.
+Qed.
+
+Lemma log_from_upd_app n i pc pc' es mains m :
+  nth_error mains i = Some pc -> i < m ->
+  evs n i pc' = evs n i pc ++ es ->
+  es = [] \/ log_from n mains i = [] ->
+  log_from n (upd i pc' mains) m = log_from n mains m ++ es.
+Proof.
+  intros Hi Hlt He Hes. induction m as [|m IH]; [lia|].
+  simpl. rewrite nth_upd.
+  assert (Hl : i <? length mains = true) by (apply Nat.ltb_lt; eapply nth_error_lt; eauto).
+  rewrite Hl. destruct (Nat.eqb_spec m i) as [->|Hne]; simpl.
+  - rewrite log_from_upd_ge by lia. rewrite (nth_error_nth _ _ _ MWaitStd Hi), He.
+    destruct Hes as [->|->]; rewrite ?app_nil_r; auto.
+  - rewrite IH by lia. rewrite app_assoc. reflexivity.
+Qed.
+
+Lemma InvC_update s s' i pc pc' es :
+  InvL s -> InvC s -> nth_error (st_main s) i = Some pc ->
+  st_n s' = st_n s -> st_main s' = upd i pc' (st_main s) ->
+  (sp_quiet (st_pool s) = true -> sp_quiet (st_pool s') = true) ->
+  sp_panic (st_pool s') = false ->
+  (nth i (st_closed s') 0 = cpos (st_n s) pc' /\ forall k, pc' = MCleanup k -> k < st_n s) ->
+  (forall j, j <> i -> nth j (st_closed s') 0 = nth j (st_closed s) 0) ->
+  (nth (nxt (st_n s) i) (st_awake s') false = woke1 pc' /\
+   nth (nxt (st_n s) i) (st_wake s') false = woke2 pc') ->
+  (forall j, j <> nxt (st_n s) i ->
+             nth j (st_awake s') false = nth j (st_awake s) false /\
+             nth j (st_wake s') false = nth j (st_wake s) false) ->
+  tphase pc <= tphase pc' ->
+  (1 <= tphase pc' ->
+   sp_quiet (st_pool s') = true /\
+   forall j pcj, i < j -> nth_error (st_main s) j = Some pcj -> tphase pcj = 2) ->
+  (pc' = MSleep -> is_leader (st_n s) i = false) ->
+  evs (st_n s) i pc' = evs (st_n s) i pc ++ es ->
+  st_log s' = st_log s ++ es ->
+  (es = [] \/ tphase pc <= 1) ->
+  InvC s'.
+Proof.
+  intros L C Hi En Em Hq Hp Hc Hc' Hw Hw' Hmono Hord Hsl Hev Hlog Hes.
+  destruct C as [Cc Cw Co Cs Cl Cp].
+  assert (Hilt : i < length (st_main s)) by (eapply nth_error_lt; eauto).
+  assert (Hin : i < st_n s) by (rewrite <- (il_main _ L); auto).
+  assert (Hlt : i <? length (st_main s) = true) by (apply Nat.ltb_lt; auto).
+  constructor; rewrite ?En, ?Em.
+  - intros j pcj. rewrite nth_error_upd, Hlt.
+    destruct (Nat.eqb_spec j i) as [->|Hne]; simpl.
+    + intro E; inversion E; subst. auto.
+    + intro E. rewrite Hc' by auto. apply Cc; auto.
+  - intros j pcj. rewrite nth_error_upd, Hlt.
+    destruct (Nat.eqb_spec j i) as [->|Hne]; simpl.
+    + intro E; inversion E; subst. auto.
+    + intro E. assert (Hjn : j < st_n s).
+      { rewrite <- (il_main _ L). eapply nth_error_lt; eauto. }
+      assert (nxt (st_n s) j <> nxt (st_n s) i) by (intro X; apply Hne; eapply nxt_inj; eauto).
+      destruct (Hw' _ H) as [-> ->]. apply Cw; auto.
+  - intros j pcj. rewrite nth_error_upd, Hlt.
+    destruct (Nat.eqb_spec j i) as [->|Hne]; simpl.
+    + intro E; inversion E; subst. intro Hph. destruct (Hord Hph) as [Q O]. split; auto.
+      intros j' pcj' Hj'. rewrite nth_error_upd_neq by lia. apply O; auto.
+    + intros E Hph. destruct (Co j pcj E Hph) as [Q O]. split; auto.
+      intros j' pcj' Hj'. rewrite nth_error_upd, Hlt.
+      destruct (Nat.eqb_spec j' i) as [->|Hne']; simpl.
+      * intro E'; inversion E'; subst. pose proof (O i pc Hj' Hi). pose proof (tphase_le2 pcj'). lia.
+      * apply O; auto.
+  - intros j. rewrite nth_error_upd, Hlt.
+    destruct (Nat.eqb_spec j i) as [->|Hne]; simpl.
+    + intro E; inversion E; subst. auto.
+    + apply Cs.
+  - rewrite Hlog, Cl. symmetry. eapply log_from_upd_app; eauto.
+    destruct Hes as [->|Hph]; auto. right.
+    apply log_from_nil. intros j Hj.
+    assert (Hjl : j < length (st_main s)) by lia.
+    destruct (nth_error_ex _ _ Hjl) as [pcj Hpj].
+    rewrite (nth_error_nth _ _ _ MWaitStd Hpj).
+    destruct (tphase pcj) eqn:T; auto.
+    destruct (Co j pcj Hpj ltac:(lia)) as [_ O]. specialize (O i pc Hj Hi). lia.
+  - exact Hp.
 Qed.
